@@ -5,7 +5,7 @@ from ._spec_common import *
 
 PROPERTY = "C03"
 LEVEL = "proof"
-TARGETS = ['MutateAttr', 'SetAttr', 'WithAttr', 'DelAttr']
+TARGETS = ['MutateAttr', 'SetAttr', 'WithAttr', 'DelAttr', 'UpdateAttr', 'TransformAttr']
 FAMILY_FILTER = ['c03.'] + STRUCTURAL
 ASSUMPTIONS = A_COMMON + [
     "clauses of other properties on the same functions are discharged by those properties' own checks",
